@@ -684,6 +684,61 @@ Proof.
   exists true. split; [reflexivity|]. intros. apply fetch_chunk_safe_checked.
 Qed.
 
+(* ================================================================== compressed data page v2 (page_reader.rs) *)
+Theorem page_v2_safe_checked chunk_len off usz csz rep def ok :
+  is_i32 usz ->
+  out_clean (p_out (load_page_v2_compressed true true chunk_len off usz csz rep def ok)) /\
+  p_alloc (load_page_v2_compressed true true chunk_len off usz csz rep def ok) < 2 ^ 31.
+Proof.
+  unfold is_i32, load_page_v2_compressed. intros Hu. cbn [andb].
+  change (2 ^ 31)%Z with 2147483648%Z in *. change (2 ^ 31) with 2147483648.
+  destruct ((usz <? 0)%Z || (csz <? 0)%Z) eqn:E0; [cbn [p_out p_alloc]; split; [right; reflexivity|lia]|].
+  destruct (chunk_len <? off + Z.to_N csz) eqn:E1; [cbn [p_out p_alloc]; split; [right; reflexivity|lia]|].
+  destruct ((rep <? 0)%Z || (def <? 0)%Z) eqn:E2; [cbn [p_out p_alloc]; split; [right; reflexivity|lia]|].
+  destruct ((Z.to_N csz <? Z.to_N rep + Z.to_N def) || (Z.to_N usz <? Z.to_N rep + Z.to_N def)) eqn:E3;
+    [cbn [p_out p_alloc]; split; [right; reflexivity|lia]|].
+  destruct (Z.to_N usz <? Z.to_N rep + Z.to_N def) eqn:E4; [lia|].
+  destruct (chunk_len <? off + (Z.to_N rep + Z.to_N def)) eqn:E5; [cbn [p_out p_alloc]; split; [right; reflexivity|lia]|].
+  destruct (Z.to_N csz <? Z.to_N rep + Z.to_N def) eqn:E6; [lia|].
+  destruct ((0 <? Z.to_N csz - (Z.to_N rep + Z.to_N def)) && negb ok); cbn [p_out p_alloc];
+    (split; [(right; reflexivity) || (left; eexists; reflexivity)|lia]).
+Qed.
+
+(* one witness for each missing half of the level length test (chunk of 100 bytes, page body at offset 20) *)
+Lemma page_v2_witnesses :
+  (* rep + def = 13 > uncompressed 12, <= compressed 20: `&mut dest[..13]` on a 12 byte buffer *)
+  (forall le_c ok, load_page_v2_compressed le_c false 100 20 12 20 0 13 ok = mk_paged (TPanic site_levels_dest) 12) /\
+  (* rep + def = 13 > compressed 10, <= uncompressed 50, inside the chunk: 10 - 13 underflows *)
+  (forall le_u ok, load_page_v2_compressed false le_u 100 20 50 10 0 13 ok = mk_paged (TPanic site_levels_sub) 50) /\
+  (forall ok, load_page_v2_compressed true true 100 20 12 20 0 13 ok = mk_paged TErr 12) /\
+  (forall ok, load_page_v2_compressed true true 100 20 50 10 0 13 ok = mk_paged TErr 50) /\
+  load_page_v2_compressed true true 100 20 50 10 2 3 true = mk_paged (TOk 30) 50 /\
+  load_page_v2_compressed true true 100 20 50 10 2 3 false = mk_paged TErr 50.
+Proof. repeat split; try (intros [] []; vm_compute; reflexivity); try (intros []; vm_compute; reflexivity); vm_compute; reflexivity. Qed.
+
+Theorem page_v2_verdict_current :
+  exists a b, TablesFault.v2_levels_le_compressed = Some a /\ TablesFault.v2_levels_le_uncompressed = Some b /\
+    (if a && b
+     then forall chunk_len off usz csz rep def ok, is_i32 usz ->
+            out_clean (p_out (load_page_v2_compressed a b chunk_len off usz csz rep def ok)) /\
+            p_alloc (load_page_v2_compressed a b chunk_len off usz csz rep def ok) < 2 ^ 31
+     else exists chunk_len off usz csz rep def x, forall ok,
+            p_out (load_page_v2_compressed a b chunk_len off usz csz rep def ok) = TPanic x).
+Proof.
+  destruct TablesFault.v2_levels_le_compressed as [a|] eqn:Ea; [|discriminate Ea || fail].
+  destruct TablesFault.v2_levels_le_uncompressed as [b|] eqn:Eb; [|discriminate Eb || fail].
+  exists a, b. split; [reflexivity|]. split; [reflexivity|].
+  destruct a, b; cbn [andb].
+  - intros. apply page_v2_safe_checked; assumption.
+  - exists 100, 20, 12%Z, 20%Z, 0%Z, 13%Z, site_levels_dest. intros []; vm_compute; reflexivity.
+  - exists 100, 20, 50%Z, 10%Z, 0%Z, 13%Z, site_levels_sub. intros []; vm_compute; reflexivity.
+  - exists 100, 20, 12%Z, 20%Z, 0%Z, 13%Z, site_levels_dest. intros []; vm_compute; reflexivity.
+Qed.
+
+Theorem page_v2_safe_current :
+  TablesFault.v2_levels_le_compressed = Some true /\ TablesFault.v2_levels_le_uncompressed = Some true.
+Proof. split; reflexivity. Qed.
+
 (* source constants *)
 Theorem footer_constants :
   exists fs mn, TablesFault.footer_size = Some fs /\ TablesFault.min_file_size = Some mn /\
